@@ -89,6 +89,7 @@ func (i *interpreter) runMain(fn *ssa.Function) {
 	i.shadows = nil
 	i.mutexes = nil
 	i.pools = nil
+	i.copyCost = 0
 	i.atomics = nil
 	i.elemOf = nil
 	i.addrs = nil
